@@ -1117,6 +1117,8 @@ def run(repo, rep):
     common.ctor_sign_table(repo, rep)
     zero_angle_rules(repo, rep)
     method_value_table(repo, rep)
+    float_subclass_rule(repo, rep)
+    vector_rules(repo, rep)
 
 
 def method_value_table(repo, rep):
@@ -1222,6 +1224,109 @@ def _small_bound(e, defs, depth=0):
         if bs and all(b_ is not None for b_ in bs):
             return (min(b_[0] for b_ in bs), max(b_[1] for b_ in bs))
     return None
+
+
+def float_subclass_rule(repo, rep):
+    """DECAngle, HPAngle and GONAngle subclass float AND keep the angle in an attribute (dec_angle / hp_angle / gon_angle); every method reads
+    the attribute.  The float value of the object itself is a second copy that differs from the attribute whenever the object was built
+    by keyword (DECAngle(dec_angle=30.0) has the float value 0.0) or the attribute was assigned later: a method that hands `self` to
+    arithmetic or to a math function (radians(self)) reads the wrong copy.  One instance per class: no bare `self` used as a number."""
+    m = repo.module('geodepy.angles')
+    for cname, cls in sorted(m.classes.items()):
+        if not any(getattr(b_, 'id', '') == 'float' for b_ in cls.node.bases):
+            continue
+        key = 'R-WIRE::geodepy/angles.py::%s::one-copy-of-the-angle' % cname
+        bad = None
+        for f in cls.methods.values():
+            parents = {}
+            for n in ast.walk(f.node):
+                for ch in ast.iter_child_nodes(n):
+                    parents[id(ch)] = n
+            for n in ast.walk(f.node):
+                if isinstance(n, ast.Name) and n.id == 'self' and isinstance(n.ctx, ast.Load):
+                    par = parents.get(id(n))
+                    if isinstance(par, ast.Attribute):
+                        continue
+                    if isinstance(par, ast.Call) and getattr(par.func, 'id', '') in ('isinstance', 'type', 'id', 'repr', 'super'):
+                        continue
+                    if isinstance(par, (ast.BinOp, ast.UnaryOp, ast.Compare)) or (isinstance(par, ast.Call) and n in par.args):
+                        bad = bad or (f, par)
+        if bad:
+            f, par = bad
+            rep.violated('R-WIRE', key, where(f, par), '%s uses the object itself as a number (`%s`): the float value of a %s is a second copy of the angle next to the attribute every '
+                         'other method reads - for %s(%s=30.0) it is 0.0, so this method answers for another angle than .dec() does' % (
+                             f.qualname, stmt_text(par)[:50], cname, cname, [p.name for p in cls.init().params if p.name != 'self'][0] if cls.init() else 'value'),
+                         expected='the stored attribute', actual=stmt_text(par)[:60])
+        else:
+            rep.holds('R-WIRE', key, '%s:%d' % (m.relpath, cls.node.lineno), 'no method of %s reads the float value of the object instead of its stored angle' % cname, work=False)
+
+
+def vector_rules(repo, rep):
+    """two structural rules for the vectorised converters (dec2hp_v, hp2dec_v):
+    - a masked update `a[m1] = f(a[m2])` uses ONE mask: with two different masks (<= 0 and < 0) the selections have different lengths as
+      soon as an element is exactly zero - numpy broadcasts a single value silently or raises;
+    - the result is not accumulated IN PLACE into an array derived from the argument by integer-preserving operations (abs, //, floor,
+      indexing): for an integer argument that array is an integer array and `+= <fraction>` raises a casting error."""
+    m = repo.module('geodepy.angles')
+    for name, f in sorted(m.functions.items()):
+        if not name.endswith('_v') or not f.params:
+            continue
+        p0 = f.params[0].name
+        key = 'R-WIRE::geodepy/angles.py::%s::one-mask' % name
+        bad = None
+        n_mask = 0
+        for st in ast.walk(f.node):
+            if isinstance(st, ast.Assign) and len(st.targets) == 1 and isinstance(st.targets[0], ast.Subscript) and isinstance(st.targets[0].value, ast.Name) \
+                    and isinstance(st.targets[0].slice, (ast.Compare, ast.BoolOp, ast.Name, ast.UnaryOp)):
+                base = st.targets[0].value.id
+                m1 = stmt_text(st.targets[0].slice)
+                for x in ast.walk(st.value):
+                    if isinstance(x, ast.Subscript) and isinstance(x.value, ast.Name) and x.value.id == base and isinstance(x.slice, (ast.Compare, ast.BoolOp, ast.Name, ast.UnaryOp)):
+                        n_mask += 1
+                        if stmt_text(x.slice) != m1:
+                            bad = bad or (st, m1, stmt_text(x.slice))
+        if bad:
+            st, m1, m2 = bad
+            rep.violated('R-WIRE', key, where(f, st), '`%s` writes the elements selected by `%s` from those selected by `%s`: with an element that is exactly zero the two selections differ in '
+                         'length - one value is broadcast over all of them (dec2hp_v([0.0, -12.575, 30.5]) gives [-12.343, -12.343, 30.3]) or numpy raises' % (stmt_text(st)[:60], m1, m2),
+                         expected='one mask on both sides', actual=stmt_text(st)[:80])
+        elif n_mask:
+            rep.holds('R-WIRE', key, where(f, f.node), 'masked updates of %s use the same mask on both sides' % name, work=False)
+        key = 'R-DTYPE::geodepy/angles.py::%s::in-place-accumulation' % name
+        intlike = {p0}
+
+        def is_intlike(e):
+            if isinstance(e, ast.Name):
+                return e.id in intlike
+            if isinstance(e, ast.Call) and getattr(e.func, 'id', getattr(e.func, 'attr', '')) in ('abs', 'absolute', 'floor', 'trunc', 'copy') and (e.args or isinstance(e.func, ast.Attribute)):
+                return is_intlike(e.args[0]) if e.args else is_intlike(e.func.value)
+            if isinstance(e, ast.BinOp) and isinstance(e.op, (ast.FloorDiv, ast.Mod, ast.Sub, ast.Add)):
+                return is_intlike(e.left) and (is_intlike(e.right) or (isinstance(e.right, ast.Constant) and isinstance(e.right.value, int)))
+            if isinstance(e, ast.UnaryOp):
+                return is_intlike(e.operand)
+            if isinstance(e, ast.Subscript):
+                return is_intlike(e.value)
+            return False
+        bad = None
+        for st in f.node.body:
+            for sub in ast.walk(st):
+                if isinstance(sub, ast.Assign) and len(sub.targets) == 1 and isinstance(sub.targets[0], ast.Name):
+                    if is_intlike(sub.value):
+                        intlike.add(sub.targets[0].id)
+                    else:
+                        intlike.discard(sub.targets[0].id)
+                if isinstance(sub, ast.AugAssign) and isinstance(sub.target, ast.Name) and sub.target.id in intlike and sub.target.id != p0 \
+                        and isinstance(sub.op, (ast.Add, ast.Sub, ast.Mult, ast.Div)):
+                    frac = any(isinstance(x, ast.BinOp) and isinstance(x.op, ast.Div) for x in ast.walk(sub.value)) or any(
+                        isinstance(x, ast.Constant) and isinstance(x.value, float) for x in ast.walk(sub.value)) or isinstance(sub.op, ast.Div)
+                    if frac:
+                        bad = bad or sub
+        if bad is not None:
+            rep.violated('R-DTYPE', key, where(f, bad), '`%s` accumulates fractions in place into `%s`, which is the argument after integer-preserving operations only (abs, //, floor): for whole-degree '
+                         'values held in an integer array (numpy.array([150, -35, 0, 258])) it is an integer array and numpy raises UFuncTypeError (same-kind casting) - the scalar twin accepts '
+                         'such values' % (stmt_text(bad)[:50], bad.target.id), expected='a new array: x = degree + minute / 60 + ...', actual=stmt_text(bad)[:60])
+        else:
+            rep.holds('R-DTYPE', key, where(f, f.node), '%s builds its result as a new array (no in-place accumulation into an array of the argument\'s element type)' % name, work=False)
 
 
 def vector_validator_rule(repo, rep):
